@@ -4,6 +4,7 @@ import (
 	"fmt"
 	"math"
 	"sort"
+	"strconv"
 	"strings"
 	"sync"
 
@@ -162,7 +163,29 @@ func genFn(s *g) Case {
 	for i := 0; i < n; i++ {
 		c.Args = append(c.Args, hv[s.pick("hv", len(hv))])
 	}
+	avoidOpenFnFindings(&c)
 	return c
+}
+
+// avoidOpenFnFindings replaces the argument an open per-argument finding names by a plain value.
+func avoidOpenFnFindings(c *Case) {
+	for _, f := range pbt.OpenFindings(prop) {
+		parts := strings.Split(f.Feature, ":")
+		if len(parts) != 3 || parts[0] != "fn" || parts[1] != c.Fn {
+			continue
+		}
+		for pass := 0; pass < 4 && contains(fnFeatures(*c), f.Feature); pass++ {
+			for i := range c.Args {
+				probe := *c
+				probe.Args = append([]gen.Val{}, c.Args...)
+				probe.Args[i] = gen.Int(7)
+				if !contains(fnFeatures(probe), f.Feature) {
+					c.Args[i] = gen.Int(7)
+					break
+				}
+			}
+		}
+	}
 }
 
 func fnFeatures(c Case) []string {
@@ -183,8 +206,11 @@ func fnFeatures(c Case) []string {
 		if a.K == "bool" {
 			out = append(out, "fn:"+c.Fn+":bool"+itoa(i))
 		}
-		if _, ok := a.Num(); ok {
+		if f, ok := a.Num(); ok {
 			out = append(out, "fn:"+c.Fn+":num"+itoa(i))
+			if math.Abs(f) >= 1e15 {
+				out = append(out, "fn:"+c.Fn+":huge"+itoa(i))
+			}
 		}
 	}
 	return out
@@ -221,6 +247,11 @@ func cleanArgs(spec *fnSpec, args []gen.Val) ([]rv, bool) {
 		case "x":
 			if v.k != 'n' && v.k != 's' {
 				return nil, false
+			}
+			if v.k == 's' {
+				if _, err := strconv.ParseFloat(strings.TrimSpace(v.s), 64); err == nil {
+					return nil, false // numeric-looking text: the function's ordering convention is not documented
+				}
 			}
 			if xk != 0 && xk != v.k {
 				return nil, false
